@@ -143,15 +143,13 @@ theorem reopen_noloss (env : Env) (fs : FS) (o : Opts) (h1 : fs.lost = []) (h2 :
     unfold reopen; rfl
   refine ⟨?_, ?_, by rw [e]; exact hk'⟩
   · rw [reopen_fs]
-    unfold loadCleanup createCur
+    unfold loadCleanup
     simp only [hk', ne_eq, not_true_eq_false, false_and, ↓reduceIte]
-    split
-    · exact h1
-    · simp [h1, h2, AL.get]
+    rw [(createCur_noolds fs _ h2).1]; exact h1
   · rw [reopen_fs]
-    unfold loadCleanup createCur
+    unfold loadCleanup
     simp only [hk', ne_eq, not_true_eq_false, false_and, ↓reduceIte]
-    split <;> exact h2
+    exact (createCur_noolds fs _ h2).2
 
 theorem step_noloss (env : Env) (s : State) (op : Op) (h : NoLoss s) (hk : op.keep0) : NoLoss (step env s op).1 := by
   unfold step
@@ -198,7 +196,7 @@ theorem claimR_eq_claim (s : State) (sp : Spec) (op : Op) (h : s.fs.lost = []) :
 
 /-- retention off: the retention-aware claims along a history are the unconditional ones -/
 theorem specRunR_eq_specRun (env : Env) : ∀ (ops : List Op) (s : State) (sp : Spec), NoLoss s → (∀ op ∈ ops, op.keep0) →
-    specRunR env s sp ops = specRun sp ops := by
+    specRunR env s sp ops = specRun env s sp ops := by
   intro ops
   induction ops with
   | nil => intro s sp _ _; rfl
